@@ -51,6 +51,9 @@ func checkC12(c *Ctx) {
 	c.Rule("C12-R17", "a report split across reads is one mouse event: the scan of a freshly read chunk never runs as if the wait had expired (the expiry flag is a constant at each call of the scanner, true only on the timer's branch; = C11-R16)")
 	c.Expect("C12-R17", 1)
 	checkScanExpiry(c, p, "C12-R17")
+	c.Rule("C12-R18", "motion with no button held carries no buttons, whatever button number the report names: the fold of such a report is decided by the held flag (and the motion bit), not by the button bits of the code")
+	c.Expect("C12-R18", 1)
+	checkMotionFoldIgnoresButtonBits(c, p, "C12-R18")
 	c.Rule("C12-R14", "the decimal accumulator of an SGR report saturates instead of wrapping around: a coordinate with more digits than an int holds is far beyond the screen and is clipped to the last column, not the first")
 	c.Expect("C12-R14", 1)
 	checkSgrAccumulatorSaturates(c, p, "C12-R14")
